@@ -18,7 +18,7 @@ for f in kn: out.append("| %s | %s | %s |" % (f['id'], f['property'], short(f['w
 out.append(open(os.path.join(V, 'tools/design9_mid.md')).read())
 out.append("| seeded | property | change | detected by |\n|---|---|---|---|")
 for d in sorted(glob.glob(os.path.join(V, 'seeded/*/meta.json'))):
-    m = json.load(open(d)); out.append("| %s | %s | %s | %s |" % (os.path.basename(os.path.dirname(d)), m.get('property'), short(m.get('change', ''), 200), short(m.get('detection', ''), 300)))
+    m = json.load(open(d)); out.append("| %s | %s | %s | %s |" % (os.path.basename(os.path.dirname(d)), m.get('property'), short(m.get('change', ''), 200), short(m.get('detection', '') + (' — FINAL TREE: ' + m['detection_final_tree'] if m.get('detection_final_tree') else ''), 520)))
 out.append(open(os.path.join(V, 'tools/design9_tail.md')).read())
 sec = "\n".join(out)
 p = os.path.join(V, 'DESIGN.md'); s = open(p).read()
